@@ -9,31 +9,34 @@ Import ListNotations.
 Open Scope string_scope.
 
 Definition allow : list allowed := [
-  (* ---- the output file and the --cache option ---- *)
+  (* ---- the output file and the --cache option (function "*": the pickles of
+     the --cache option are identified by file and text wherever a rewrite
+     moves them; whether they run without --cache is a runtime question: the
+     sweep checks that no cache file appears unless --cache is given) ---- *)
   mkAllowed "t4_geom_convert/main.py" "conversion" "t4_output_filename.open('w')"
     "the output file (-o or <input>.t4); the runtime sweep checks that the input file is byte-identical afterwards";
-  mkAllowed "t4_geom_convert/Kernel/FileHandlers/Parser/ParseMCNPCell.py" "ParseMCNPCell.parse"
+  mkAllowed "t4_geom_convert/Kernel/FileHandlers/Parser/ParseMCNPCell.py" "*"
     "self.cell_cache_path.open('wb')"
     "cell_cache_path is None unless --cache is given (documented debug disk cache <input>.mcnp.cache, never the input itself); its staleness is the runtime finding cache_option_stale_disk_cache";
-  mkAllowed "t4_geom_convert/Kernel/FileHandlers/Parser/ParseMCNPCell.py" "ParseMCNPCell.parse"
+  mkAllowed "t4_geom_convert/Kernel/FileHandlers/Parser/ParseMCNPCell.py" "*"
     "pickle.dump((dict_cell, skipped_cells), dicfile)"
     "only under --cache, into <input>.mcnp.cache (see above)";
-  mkAllowed "t4_geom_convert/Kernel/FileHandlers/Writer/WriteT4Geometry.py" "convertMCNPGeometry"
+  mkAllowed "t4_geom_convert/Kernel/FileHandlers/Writer/WriteT4Geometry.py" "*"
     "t4_surf_cache_path.open('wb')"
     "only under --cache (else-branch of `if not args.cache`), into <input>.surfaces.cache";
-  mkAllowed "t4_geom_convert/Kernel/FileHandlers/Writer/WriteT4Geometry.py" "convertMCNPGeometry"
+  mkAllowed "t4_geom_convert/Kernel/FileHandlers/Writer/WriteT4Geometry.py" "*"
     "pickle.dump(surf_conv, dicfile)"
     "only under --cache, into <input>.surfaces.cache";
-  mkAllowed "t4_geom_convert/Kernel/FileHandlers/Writer/WriteT4Geometry.py" "convertMCNPGeometry"
+  mkAllowed "t4_geom_convert/Kernel/FileHandlers/Writer/WriteT4Geometry.py" "*"
     "t4_vol_cache_path.open('wb')"
     "only under --cache, into <input>.volumes.cache";
-  mkAllowed "t4_geom_convert/Kernel/FileHandlers/Writer/WriteT4Geometry.py" "convertMCNPGeometry"
+  mkAllowed "t4_geom_convert/Kernel/FileHandlers/Writer/WriteT4Geometry.py" "*"
     "pickle.dump(vol_conv, dicfile)"
     "only under --cache, into <input>.volumes.cache";
-  mkAllowed "t4_geom_convert/Kernel/FileHandlers/Parser/ParseMCNPCell.py" "ParseMCNPCell.parse"
+  mkAllowed "t4_geom_convert/Kernel/FileHandlers/Parser/ParseMCNPCell.py" "*"
     "pickle.load(dicfile)"
     "only under --cache: state of an earlier run read back from <input>.mcnp.cache without checking that it belongs to the deck — this IS the open finding cache_option_stale_disk_cache (witness replayed on every run)";
-  mkAllowed "t4_geom_convert/Kernel/FileHandlers/Writer/WriteT4Geometry.py" "convertMCNPGeometry"
+  mkAllowed "t4_geom_convert/Kernel/FileHandlers/Writer/WriteT4Geometry.py" "*"
     "pickle.load(dicfile)"
     "only under --cache: <input>.surfaces.cache / .volumes.cache read back unchecked — the open finding cache_option_stale_disk_cache";
   (* ---- clock and command line ---- *)
